@@ -696,10 +696,88 @@ func (c *rctx) load(addr ssa.Value) string {
 			set[c.x(v)] = true
 		}
 		return joinSet("phi", set)
-	case *ssa.FieldAddr, *ssa.IndexAddr, *ssa.Global:
+	case *ssa.FieldAddr:
+		// a field of a local struct that is filled exactly once (directly, or as a whole from another local built
+		// field by field): the value it was given
+		if v := localFieldValue(a); v != nil && !c.seen[v] {
+			c.seen[v] = true
+			defer delete(c.seen, v)
+			return c.x(v)
+		}
+		return c.x(a)
+	case *ssa.IndexAddr, *ssa.Global:
 		return c.x(a)
 	}
 	return "*" + c.x(addr)
+}
+
+// localFieldValue: fa addresses field f of a local struct variable whose field f receives exactly one value over
+// the whole function: one direct store, or one whole-struct store from another local whose field f is stored once.
+// Returns that value, or nil.
+func localFieldValue(fa *ssa.FieldAddr) ssa.Value {
+	al, ok := fa.X.(*ssa.Alloc)
+	if !ok || al.Heap {
+		return nil
+	}
+	var find func(a *ssa.Alloc, depth int) (ssa.Value, int)
+	find = func(a *ssa.Alloc, depth int) (ssa.Value, int) {
+		if depth > 3 || a.Referrers() == nil {
+			return nil, 2
+		}
+		var val ssa.Value
+		n := 0
+		for _, r := range *a.Referrers() {
+			switch x := r.(type) {
+			case *ssa.FieldAddr:
+				if x.Field != fa.Field {
+					continue
+				}
+				for _, r2 := range *x.Referrers() {
+					switch s := r2.(type) {
+					case *ssa.Store:
+						if s.Addr == ssa.Value(x) {
+							val = s.Val
+							n++
+						}
+					case *ssa.UnOp, *ssa.DebugRef, *ssa.FieldAddr, *ssa.IndexAddr:
+					default:
+						if _, isCall := r2.(ssa.CallInstruction); isCall {
+							return nil, 2 // the field's address escapes
+						}
+					}
+				}
+			case *ssa.Store:
+				if x.Addr != ssa.Value(a) {
+					return nil, 2 // the address itself is stored somewhere
+				}
+				u, isLoad := x.Val.(*ssa.UnOp)
+				if !isLoad || u.Op != token.MUL {
+					return nil, 2
+				}
+				src, isAlloc := u.X.(*ssa.Alloc)
+				if !isAlloc || src.Heap {
+					return nil, 2
+				}
+				v, k := find(src, depth+1)
+				if k != 1 {
+					return nil, 2
+				}
+				val = v
+				n++
+			case *ssa.UnOp, *ssa.DebugRef:
+			default:
+				if _, isCall := r.(ssa.CallInstruction); isCall {
+					return nil, 2
+				}
+			}
+		}
+		return val, n
+	}
+	v, n := find(al, 0)
+	if n != 1 {
+		return nil
+	}
+	return v
 }
 
 func joinSet(tag string, set map[string]bool) string {
